@@ -58,9 +58,9 @@ def relations(A, want_views=True):
 
 
 def tol_for(entry, A):
-    if entry.kind == L.EXACT and np.dtype(A.input_dtype).itemsize >= 8:
+    if entry.kind == L.EXACT and L.is_double(A.input_dtype):
         return None
-    if np.dtype(A.input_dtype) in (np.dtype(np.float32), np.dtype(np.complex64)):
+    if not L.is_double(A.input_dtype):
         return 2.0 ** -12
     return 2.0 ** -30
 
@@ -148,7 +148,7 @@ def run(ctx: Ctx):
         sel = []
         for i, e in enumerate(cat):
             per[e.cls] = per.get(e.cls, 0) + 1
-            if per[e.cls] <= 14:
+            if per[e.cls] <= 8:
                 sel.append((i, e))
     else:
         sel = list(enumerate(cat))
@@ -168,7 +168,7 @@ def run(ctx: Ctx):
 
     # expression trees: adjoint of derived operators
     items = []
-    ntree = ctx.n(60, 600)
+    ntree = ctx.n(40, 600)
     for t in range(ntree):
         dt = ctx.rng.choice([np.float64, np.complex128])
         n = ctx.rng.choice([2, 3])
